@@ -215,7 +215,7 @@ def systematic_calls(g, quick):
                     if quick:
                         # keep: everything small, a sample of the rest
                         keep = 1.0 if (m <= 3 and kinds == ["T"] * m and fname in ("cf", "K.m")) else \
-                            (0.5 if kinds == ["T"] * m else 0.12)
+                            (0.35 if kinds == ["T"] * m else 0.09)
                         if inorder and len(perm) > 0:
                             keep *= 0.5
                         if rng.random() > keep:
@@ -283,7 +283,7 @@ class Stop(Exception):
 def stop(self, root):
     raise Stop()
 ParseTreeTransforms.ExpandInplaceOperators.__call__ = stop
-import io
+import io, re
 directives = dict(Options.get_directive_defaults()); directives["language_level"] = 3
 out = {}
 for name in spec["modules"]:
@@ -301,28 +301,47 @@ for name in spec["modules"]:
     finally:
         sys.stderr = old
     out[name] = {str(k): v for k, v in REC.items()}
+    out[name + "#err"] = [[int(m.group(1)), m.group(2)[:200]] for m in
+                          re.finditer(r"^[^\n:]+:(\d+):\d+: ([^\n]*)$", err.getvalue(), re.M)]
 print(json.dumps(out))
 '''
 
 
-def kind_bits(kinds):
-    return "".join("1" if k in SIMPLE else "0" for k in kinds)
+def front_run(workdir, modules):
+    """run the compiler front end (up to expression analysis) on <module>.pyx files with the recording hook:
+    {module: {line: [record]}, module#err: [[line, message]]}"""
+    if not modules:
+        return {}
+    r = cybuild.run_script(FRONT, workdir, {"modules": list(modules), "dir": workdir}, timeout=3000, name="c20_front.py")
+    if not isinstance(r["json"], dict):
+        raise RuntimeError("front-end run failed rc=%s %s" % (r["rc"], r["err"][-2000:]))
+    return r["json"]
 
 
 def tie_cases(g, quick):
-    """(fname, npos, perm, kinds): every shape x every pattern over {non-simple, simple} plus patterns with
-    arguments that are only taken for simple"""
+    """(fname, npos, perm, kinds) for every shape with at least one keyword.
+    thorough: every pattern over {non-simple, simple} plus patterns with arguments only taken for simple;
+    quick: all-non-simple, all patterns for <= 3 arguments, a few random ones for 4 (budget: ~5 ms per call)"""
     rng = g.rng
     out = []
     for fname in sorted(CALLEES):
         if CALLEES[fname].get("ctyped"):
             continue
         for npos, perm in call_shapes(fname):
+            if not perm:
+                continue        # purely positional: a SimpleCallNode from the start, no mapping
             m = npos + len(perm)
-            pats = set(itertools.product(["T", "x"], repeat=m))
-            for _ in range(3 if quick else 12):
+            if quick and m > 3:
+                pats = {tuple(["T"] * m)}
+                for _ in range(2):
+                    pats.add(tuple(rng.choice(["T", "T", "x"]) for _ in range(m)))
+            else:
+                pats = set(itertools.product(["T", "x"], repeat=m))
+            for _ in range(1 if quick else 12):
                 pats.add(tuple(rng.choice(NONSIMPLE + SIMPLE + FALSE_SIMPLE) for _ in range(m)))
             for p in range(m):
+                if quick and rng.random() < 0.6:
+                    continue
                 for fs in (FALSE_SIMPLE if not quick else [rng.choice(FALSE_SIMPLE)]):
                     k = ["T"] * m; k[p] = fs; pats.add(tuple(k))
             for kinds in sorted(pats):
